@@ -4,7 +4,9 @@ from torchtree.cli.evolution import COALESCENT_PIECEWISE
 
 
 def create_loggers(parameters: list[str], arg) -> dict:
-    models = ["joint.jacobian", "joint", "like", "prior"]
+    models = ["joint.jacobian", "joint", "like"]
+    if getattr(arg, "_has_prior", True):
+        models.append("prior")
     if arg.coalescent:
         models.append("coalescent")
         if arg.coalescent in COALESCENT_PIECEWISE and not arg.gmrf_integrated:
